@@ -114,10 +114,68 @@ Lemma ex_g_inverse : Forall (allinfo (inverse_on (sm_of (SMset ex_tbl)) ex_dd)) 
 Proof.
   apply allinfo_f_of_pre. intros t H. cbn in H.
   repeat (destruct H as [<-|H];
-          [intros D Hown; unfold ex_dd, dd_raw; rewrite (Hown k_data k_data_neq_ch);
-           eexists; split; [reflexivity|repeat split]|]).
+          [apply (inverse_on_raw (enc_of ex_tbl)); [apply sm_set_ok|eexists; split; [reflexivity|repeat split]]|]).
   destruct H.
 Qed.
+
+(* a mapper pair that moves the id to another key and back: the serialisation
+   mapper stores data_id under "g" (and the encoded object under "t"), the
+   deserialisation mapper pops both and restores item["data_id"] *)
+Lemma dget_dremove_other k k' d : k <> k' -> dget k (dremove k' d) = dget k d.
+Proof.
+  intros N. induction d as [|[k2 v2] r IH]; [reflexivity|]. cbn [dremove dget].
+  destruct (text_eqb k' k2) eqn:E.
+  - apply text_eqb_eq in E. subst k2. now rewrite (text_eqb_neq _ _ N).
+  - cbn [dget]. destruct (text_eqb k k2); [reflexivity|exact IH].
+Qed.
+
+Lemma sm_guid_kids tbl : sm_kids (sm_of (SMguid tbl)).
+Proof.
+  intros i res H. cbn [sm_of]. rewrite dget_dset_other by discriminate.
+  destruct (dget k_data_id res); [|exact H].
+  rewrite dget_dset_other by discriminate. rewrite dget_dremove_other by discriminate. exact H.
+Qed.
+
+Definition ex_dec (v : jv) : res info :=
+  if jv_eqb v (JDict [([118], JInt 7)]) then inl (I (-1) 7 70 false [79] (DInt 0) None [])
+  else if jv_eqb v (JDict [([107], JInt 3)]) then inl (I (-1) 3 33 false [79] (DInt 0) None [])
+  else inr E_CRASH.
+
+Definition ex_dd_guid : dmapper := fun d =>
+  match dget k_t d with
+  | None => inr E_KEY
+  | Some v =>
+      match ex_dec v with
+      | inr e => inr e
+      | inl i => inl (i, match dget k_g d with
+                         | Some g => dset k_data_id g (dremove k_g (dremove k_t d))
+                         | None => dremove k_t d
+                         end)
+      end
+  end.
+
+Ltac guid_node :=
+  let D := fresh "D" in let Hown := fresh "Hown" in
+  intros D Hown; unfold ex_dd_guid;
+  rewrite (Hown k_t ltac:(discriminate)), (Hown k_g ltac:(discriminate)); cbn;
+  eexists; eexists; split; [reflexivity|]; split; [repeat split|]; split;
+  [ first [ apply dget_dset_same
+          | rewrite dget_dremove_other by discriminate; rewrite (Hown k_data_id ltac:(discriminate)); reflexivity ]
+  | repeat first [rewrite dget_dset_other by discriminate | rewrite dget_dremove_other by discriminate];
+    rewrite (Hown k_node_id ltac:(discriminate)); reflexivity ].
+
+Lemma ex_guid_inverse : Forall (allinfo (inverse_on (sm_of (SMguid ex_tbl)) ex_dd_guid)) ex_g.
+Proof.
+  apply allinfo_f_of_pre. intros t H. cbn in H.
+  destruct H as [<-|[<-|[<-|[<-|[]]]]]; guid_node.
+Qed.
+
+Lemma ex_guid_rebuilt :
+  tree_from_dict ex_dd_guid 4 (to_dict_list (sm_of (SMguid ex_tbl)) ex_g) =
+  inl [ T 5 (I (-1) 7 70 false [79] (DInt 70) None [])
+          [T 6 (I (-1) 7 70 false [79] (DStr [107]) None []) [];
+           T 7 (I (-1) 3 33 false [79] (DInt 33) None []) [T 8 (I (-1) 7 70 false [79] (DInt 70) None []) []]] ].
+Proof. vm_compute. reflexivity. Qed.
 
 (* the inverse-pair hypothesis is needed: a decoder that maps every value to
    one object makes two siblings collide *)
@@ -147,18 +205,20 @@ Lemma ex_drop_loses_ids :
 Proof. reflexivity. Qed.
 
 (* canonical dict lists: the four shapes of a canonical item *)
-Lemma canon_leaf dd s i : dd [(k_data, JStr s)] = inl i -> i_name i = s -> i_hash i <> (-1) ->
+Lemma canon_leaf dd s i : dd [(k_data, JStr s)] = inl (i, [(k_data, JStr s)]) -> i_name i = s -> i_hash i <> (-1) ->
   canon dd (JDict [(k_data, JStr s)]).
 Proof. intros H1 H2 Hh. apply (canon_item dd s i [] [] H1 H2 Hh); now left. Qed.
 
-Lemma canon_id dd s i dv : dd [(k_data, JStr s); (k_data_id, jv_of_did dv)] = inl i -> i_name i = s -> i_hash i <> (-1) -> dv <> DInt (i_hash i) ->
+Lemma canon_id dd s i dv :
+  dd [(k_data, JStr s); (k_data_id, jv_of_did dv)] = inl (i, [(k_data, JStr s); (k_data_id, jv_of_did dv)]) -> i_name i = s -> i_hash i <> (-1) -> dv <> DInt (i_hash i) ->
   canon dd (JDict [(k_data, JStr s); (k_data_id, jv_of_did dv)]).
 Proof.
   intros H1 H2 Hh H3. apply (canon_item dd s i [(k_data_id, jv_of_did dv)] [] H1 H2 Hh); [right|now left].
   exists dv. split; [reflexivity|exact H3].
 Qed.
 
-Lemma canon_kids dd s i c cs : dd [(k_data, JStr s); (k_children, JList (c :: cs))] = inl i -> i_name i = s -> i_hash i <> (-1) -> Forall (canon dd) (c :: cs) ->
+Lemma canon_kids dd s i c cs :
+  dd [(k_data, JStr s); (k_children, JList (c :: cs))] = inl (i, [(k_data, JStr s); (k_children, JList (c :: cs))]) -> i_name i = s -> i_hash i <> (-1) -> Forall (canon dd) (c :: cs) ->
   canon dd (JDict [(k_data, JStr s); (k_children, JList (c :: cs))]).
 Proof.
   intros H1 H2 Hh H3. apply (canon_item dd s i [] [(k_children, JList (c :: cs))] H1 H2 Hh); [now left|right].
@@ -166,7 +226,8 @@ Proof.
 Qed.
 
 Lemma canon_full dd s i dv c cs :
-  dd [(k_data, JStr s); (k_data_id, jv_of_did dv); (k_children, JList (c :: cs))] = inl i -> i_name i = s -> i_hash i <> (-1) -> dv <> DInt (i_hash i) ->
+  dd [(k_data, JStr s); (k_data_id, jv_of_did dv); (k_children, JList (c :: cs))] =
+  inl (i, [(k_data, JStr s); (k_data_id, jv_of_did dv); (k_children, JList (c :: cs))]) -> i_name i = s -> i_hash i <> (-1) -> dv <> DInt (i_hash i) ->
   Forall (canon dd) (c :: cs) ->
   canon dd (JDict [(k_data, JStr s); (k_data_id, jv_of_did dv); (k_children, JList (c :: cs))]).
 Proof.
